@@ -44,7 +44,7 @@ def cases(prop, tier, seed):
         for name in inner + ["IntervalEstimationThreshold"]:
             for t in range(25 * reps):
                 out.append(dict(kind="C07", inner=name, dseed=int(rs.randint(1 << 30)), n=int(rs.randint(3, 9)), a=int(rs.randint(1, 5)),
-                                mode=t % 5, b=int(rs.randint(1, 8)), naps=int(rs.randint(1, 4)), sseed=int(rs.randint(0, 30)), t=t, cls=name,
+                                mode=t % 5, b=int(rs.randint(1, 8)) + (4 if t % 3 == 2 else 0), naps=int(rs.randint(1, 4)), sseed=int(rs.randint(0, 30)), t=t, cls=name,
                                 key=["C07", name, t]))
     return out
 
@@ -299,6 +299,12 @@ def run_c07(case, fail):
                 return
             qs = SingleAnnotatorWrapper(make_strategy(name, case["sseed"]), random_state=case["sseed"])
             naps = case["naps"]
+            if case["t"] % 3 == 2:
+                # array-valued request: entry i for the i-th sample of the ranking, the last entry for all later samples (documented)
+                rs_n = np.random.RandomState(case["dseed"] + 7)
+                naps = [int(v) for v in rs_n.randint(1, 4, size=int(rs_n.randint(1, 4)))]
+                if len(naps) >= 2 and len(set(naps)) == 1:
+                    naps[0] = naps[0] % 3 + 1            # non-constant requests are the interesting ones
             q, U = qs.query(X, Y, candidates=cand, annotators=annot, batch_size=case["b"], n_annotators_per_sample=naps,
                             return_utilities=True, **z["kwargs"](NAN, (0, 1), case["sseed"]))
     except _NoTermination:
@@ -335,6 +341,31 @@ def run_c07(case, fail):
         if nn & set(pairs[:i]):
             fail("C07.utility_at_selected_pair", f"step {i}: {sorted(nn & set(pairs[:i]))}")
             break
+    if isinstance(naps, list) and not fails_in(fail):
+        # array-valued request, judged only when every offered sample has the same number of available annotators and the requests can take
+        # the whole batch (then the assignment is determined): the i-th sample of the batch receives min(request_i, #available) pairs
+        rows = sorted({p[0] for p in avail})
+        n_rows_offered = ncand_rows if mode in (0, 1, 4) else len(set(np.asarray(cand).tolist()))
+        avs = {sum(1 for p in avail if p[0] == r) for r in rows}
+        full = len(rows) == n_rows_offered and len(avs) == 1          # every offered sample has the same number of available annotators
+        av = min(avs) if avs else 0
+        want = lambda i: min(naps[min(i, len(naps) - 1)], av)
+        order = []
+        for s_, _ in pairs:
+            if s_ not in order:
+                order.append(s_)
+        capacity = sum(want(i) for i in range(n_rows_offered))
+        if full and capacity >= case["b"]:
+            counts = [sum(1 for p in pairs if p[0] == s_) for s_ in order]
+            expected, rem, i = [], len(pairs), 0
+            while rem > 0:
+                expected.append(min(want(i), rem))
+                rem -= expected[-1]
+                i += 1
+            if counts != expected:
+                fail("C07.array_request_not_respected", f"annotators per sample in batch order {counts}, requested {naps} "
+                                                        f"(entry i for the i-th sample, last entry for the rest), {av} annotators available for each sample")
+        naps = None
     if naps is not None and not fails_in(fail):
         # a requested number of annotators per sample is respected whenever enough annotators are available
         per = {}
